@@ -44,10 +44,14 @@ AtomsEntry == {C1, CS, CT, CF, NEmpty, NOp("Tuple", <<C1, CS>>), NConst(VFloat(<
                Bin("Assign", WX, C2), Bin("Div", C1, C0), NLeaf("Read", NU), CallN(NFf, C2), CallN(NH, C1)}
 \* "deep": fewer atoms and combinators, one more level (programs of four atoms)
 AtomsDeep == {Bin("Assign", WX, C1), Bin("AddAssign", WX, C1), RX, CallN(NFf, C2), CallN(NH, C1)}
-Atoms == CASE Family = "order" -> AtomsOrder [] Family = "imm" -> AtomsImm [] Family = "deep" -> AtomsDeep [] OTHER -> AtomsEntry
-Combs == CASE Family = "entry" -> {"Add", "Chain", "Tuple", "Eq", "And", "Or"} [] Family = "deep" -> {"Add", "And", "Tuple", "Chain"}
+\* "entrydeep": the entry-point family one level deeper, over fewer atoms (every result type that an entry point projects, an
+\* assignment, a call, an undefined variable)
+AtomsEntryDeep == {C1, CT, CF, CS, RX, Bin("Assign", WX, C2), NLeaf("Read", NU), CallN(NFf, C2)}
+Atoms == CASE Family = "order" -> AtomsOrder [] Family = "imm" -> AtomsImm [] Family = "deep" -> AtomsDeep
+           [] Family = "entrydeep" -> AtomsEntryDeep [] OTHER -> AtomsEntry
+Combs == CASE Family = "entry" -> {"Add", "Chain", "Tuple", "Eq", "And", "Or"} [] Family = "entrydeep" -> {"Add", "And", "Or", "Chain", "Tuple"} [] Family = "deep" -> {"Add", "And", "Tuple", "Chain"}
            [] OTHER -> {"Add", "Mul", "And", "Or", "Eq", "Tuple", "Chain"}
-Wraps == IF Family = "entry" THEN {} ELSE {NFf, NH}
+Wraps == IF Family \in {"entry", "entrydeep"} THEN {} ELSE {NFf, NH}
 AssignWraps == CASE Family = "imm" -> AssignNodes [] Family \in {"order", "deep"} -> {"Assign", "AddAssign", "OrAssign"} [] OTHER -> {"Assign"}
 
 \* the builtin `if` is an ordinary function: all three arguments are evaluated, whatever the condition
@@ -66,7 +70,7 @@ Extend(q) == {Combine(o, q, a) : o \in Combs, a \in Atoms}
              \cup {CallN(f, q) : f \in Wraps}
              \cup {Bin(o, WX, q) : o \in AssignWraps}                    \* the program as the right-hand side of an assignment
              \cup IfWraps(q)
-             \cup (IF Family = "entry" THEN {} ELSE {NOp("Neg", <<q>>), NOp("Not", <<q>>)})
+             \cup (IF Family \in {"entry", "entrydeep"} THEN {} ELSE {NOp("Neg", <<q>>), NOp("Not", <<q>>)})
 Init == lvl = 0 /\ p \in Atoms
 Next == lvl < Depth /\ lvl' = lvl + 1 /\ p' \in Extend(p)
 
@@ -137,5 +141,5 @@ SpecTheorems ==
   /\ Classify(Toks) = [class |-> "WF", tree |-> p]              \* the source text of the case denotes this program
   /\ (Family = "imm" => ImmIsProjection)
   /\ (Family \in {"order", "deep"} => FirstErrorWins)
-  /\ (Family = "entry" => Idempotent)
+  /\ (Family \in {"entry", "entrydeep"} => Idempotent)
 =============================================================================
